@@ -158,6 +158,22 @@ CLAIMED = {
         'the activation loop over several iterations, _llcp_connect ordering and "ends promptly" (time) are not covered; '
         'driver I/O faults are C13.',
    technique='contract-based deductive verification: ghost event log + postconditions (pyvc)'),
+ 'C20': dict(
+   category='proof',
+   text='NTAG21x: _authenticate sends PWD_AUTH with the first four key octets and returns true exactly when PWD and '
+        'PACK of a tag model match the six derived key octets (ValueError for 1..5 octet passwords); '
+        '_protect_with_password followed by _authenticate(password2) is true exactly when both passwords derive the '
+        'same key, for all passwords, protect_from and read_protect values. FeliCa Lite (modulo an idealised, '
+        'collision-free MAC and 3DES): _authenticate returns true exactly when the tag model holds the derived card '
+        'key (challenge octet order, session key derivation, MAC over the ID block with RC1 as IV), sets the session '
+        'key only then; read_with_mac returns data only when the MAC field of this response equals the MAC of its data '
+        'field under the session key, for arbitrary (attacker chosen) responses.',
+   design_ref='DESIGN.md section 5 (C20)',
+   note='Cryptography is idealised (pyDes triple_des and generate_mac are uninterpreted collision-free functions: '
+        'unforgeability is assumed, not proved); generate_mac\'s body is out of reach; the tags are environment models '
+        'read from the data sheets. Not covered: FeliCa Lite-S mutual authentication and write_with_mac, FeliCa '
+        'protect(), Ultralight C. FeliCa contracts are not natively replayable.',
+   technique='contract-based deductive verification with uninterpreted ideal functions for crypto (pyvc)'),
 }
 
 NOT_APPLICABLE = {}
